@@ -936,12 +936,17 @@ type scalarExec struct {
 	pkg    *ssa.Package
 	steps  int
 	region *ssa.BasicBlock // the block the outermost walk started from
+	// visit, when set, sees every instruction of the blocks the outermost walk passes through, with a way to ask for
+	// the decided value of an operand
+	visit func(in ssa.Instruction, val func(ssa.Value) (int64, bool))
 }
 
 type execResult struct {
 	Returned bool    // a Return was reached
 	Results  []int64 // its decided results
 	Decided  []bool
+	NilConst []bool // the result is the nil constant
+	PhiIn    map[*ssa.Phi]int64 // on Looped: the decided values the phis of the block come back to receive
 	Looped   bool // came back to a visited block
 	GaveUp   bool
 }
@@ -1072,11 +1077,23 @@ func (x *scalarExec) run(fn *ssa.Function, b *ssa.BasicBlock, start int, env map
 		if x.steps > 4_000_000 || depth > 6 {
 			return execResult{GaveUp: true}
 		}
-		if seen[b] {
-			return execResult{Looped: true}
-		}
-		if depth == 0 && x.region != nil && b != x.region && b.Dominates(x.region) {
-			return execResult{Looped: true} // left the region through a back edge to an enclosing loop header
+		if seen[b] || (depth == 0 && x.region != nil && b != x.region && b.Dominates(x.region)) {
+			// back at a block already walked, or left the region through a back edge to an enclosing loop header
+			res := execResult{Looped: true, PhiIn: map[*ssa.Phi]int64{}}
+			for _, in := range b.Instrs {
+				phi, ok := in.(*ssa.Phi)
+				if !ok {
+					break
+				}
+				for i, p := range b.Preds {
+					if p == prev {
+						if k, ok := x.value(phi.Edges[i], env, nil, depth); ok {
+							res.PhiIn[phi] = k
+						}
+					}
+				}
+			}
+			return res
 		}
 		seen[b] = true
 		// phis of the block take the value of the edge taken
@@ -1098,6 +1115,12 @@ func (x *scalarExec) run(fn *ssa.Function, b *ssa.BasicBlock, start int, env map
 				}
 			}
 		}
+		if depth == 0 && x.visit != nil {
+			pv := prev
+			for _, in := range b.Instrs {
+				x.visit(in, func(v ssa.Value) (int64, bool) { return x.value(v, env, pv, depth) })
+			}
+		}
 		last := b.Instrs[len(b.Instrs)-1]
 		switch t := last.(type) {
 		case *ssa.Return:
@@ -1106,6 +1129,7 @@ func (x *scalarExec) run(fn *ssa.Function, b *ssa.BasicBlock, start int, env map
 				k, ok := x.value(rv, env, prev, depth)
 				res.Results = append(res.Results, k)
 				res.Decided = append(res.Decided, ok)
+				res.NilConst = append(res.NilConst, isNilConst(rv))
 			}
 			return res
 		case *ssa.If:
@@ -1244,4 +1268,250 @@ func equalFoldsPairs(c *Ctx, r *Report, rule string) {
 	} else {
 		r.fail(rule, "equal", c.pos(fn.Pos()), "%s", strings.Join(problems, "; "))
 	}
+}
+
+// bindNilTests: the comparisons with nil of a function, bound as "no error occurred, every pointer is set".
+func bindNilTests(fn *ssa.Function, env map[ssa.Value]int64) {
+	allInstrs(fn, func(in ssa.Instruction) {
+		bin, ok := in.(*ssa.BinOp)
+		if !ok || (bin.Op != token.EQL && bin.Op != token.NEQ) {
+			return
+		}
+		var other ssa.Value
+		if isNilConst(bin.Y) {
+			other = bin.X
+		} else if isNilConst(bin.X) {
+			other = bin.Y
+		} else {
+			return
+		}
+		isNil := isErrorType(other.Type()) // an error is nil, anything else is not
+		if (bin.Op == token.EQL) == isNil {
+			env[bin] = 1
+		} else {
+			env[bin] = 0
+		}
+	})
+}
+
+// ecdsaWidthsExec: the coordinate width setPublicKeyECDSA pads to and the key length publicKeyECDSA accepts, per
+// algorithm number, read off by walking the two functions with the algorithm (and the key length) bound: 13 -> 32 and
+// 64 octets, 14 -> 48 and 96. Whatever the selection is written as (switch, if chain, table in a helper).
+func ecdsaWidthsExec(c *Ctx, r *Report, rule string) {
+	setFn, getFn := c.ssaFunc("DNSKEY.setPublicKeyECDSA"), c.ssaFunc("DNSKEY.publicKeyECDSA")
+	if setFn == nil || getFn == nil {
+		r.cerr(rule, "ecdsa", "setPublicKeyECDSA / publicKeyECDSA not found")
+		return
+	}
+	r.fn("DNSKEY.setPublicKeyECDSA")
+	r.fn("DNSKEY.publicKeyECDSA")
+	algLoads := func(fn *ssa.Function) []ssa.Value {
+		var out []ssa.Value
+		allInstrs(fn, func(in ssa.Instruction) {
+			if ld, ok := in.(*ssa.UnOp); ok && ld.Op == token.MUL && readsField("DNSKEY", "Algorithm")(ld.X) {
+				out = append(out, ld)
+			}
+		})
+		return out
+	}
+	want := map[int64]int64{13: 32, 14: 48}
+	var problems []string
+	undecided := false
+	// the encoder
+	for _, alg := range []int64{13, 14, 5, 8, 10, 15} {
+		env := map[ssa.Value]int64{}
+		bindNilTests(setFn, env)
+		for _, ld := range algLoads(setFn) {
+			env[ld] = alg
+		}
+		var widths []int64
+		x := &scalarExec{pkg: setFn.Pkg}
+		x.visit = func(in ssa.Instruction, val func(ssa.Value) (int64, bool)) {
+			call, ok := in.(*ssa.Call)
+			if !ok {
+				return
+			}
+			name := calleeNameSSA(&call.Call)
+			if name != "curveToBuf" && name != "intToBytes" {
+				return
+			}
+			if k, ok := val(call.Call.Args[len(call.Call.Args)-1]); ok {
+				widths = append(widths, k)
+			} else {
+				widths = append(widths, -1)
+			}
+		}
+		res := x.run(setFn, setFn.Blocks[0], 0, env, 0)
+		if res.GaveUp {
+			undecided = true
+			continue
+		}
+		refused := res.Returned && len(res.Results) == 1 && res.Decided[0] && res.Results[0] == 0
+		cw, isEcdsa := want[alg]
+		switch {
+		case isEcdsa && (refused || len(widths) == 0):
+			problems = append(problems, fmt.Sprintf("setPublicKeyECDSA has no coordinate width for algorithm %d (it would encode with width 0: coordinates with leading zero octets come out short)", alg))
+		case isEcdsa:
+			for _, w := range widths {
+				if w != cw {
+					problems = append(problems, fmt.Sprintf("setPublicKeyECDSA pads algorithm %d coordinates to %d octets, RFC 6605 needs %d", alg, w, cw))
+				}
+			}
+		case !isEcdsa:
+			for _, w := range widths {
+				if w > 0 {
+					problems = append(problems, fmt.Sprintf("setPublicKeyECDSA has a width for %d, which is not an ECDSA signature algorithm number (13, 14)", alg))
+				}
+			}
+		}
+	}
+	// the decoder
+	var lens []ssa.Value
+	allInstrs(getFn, func(in ssa.Instruction) {
+		if call, ok := in.(*ssa.Call); ok && calleeNameSSA(&call.Call) == "builtin.len" {
+			if sl, isSl := call.Call.Args[0].Type().Underlying().(*types.Slice); isSl {
+				if b, isB := sl.Elem().Underlying().(*types.Basic); isB && b.Kind() == types.Uint8 {
+					lens = append(lens, call)
+				}
+			}
+		}
+	})
+	for alg, cw := range want {
+		var accepted []int64
+		for L := int64(0); L < 256; L++ {
+			env := map[ssa.Value]int64{}
+			bindNilTests(getFn, env)
+			for _, ld := range algLoads(getFn) {
+				env[ld] = alg
+			}
+			for _, lc := range lens {
+				env[lc] = L
+			}
+			x := &scalarExec{pkg: getFn.Pkg}
+			res := x.run(getFn, getFn.Blocks[0], 0, env, 0)
+			if res.GaveUp {
+				undecided = true
+				break
+			}
+			if res.Returned && len(res.NilConst) == 1 && res.NilConst[0] {
+				continue
+			}
+			accepted = append(accepted, L)
+		}
+		if len(lens) == 0 || len(accepted) == 256 {
+			problems = append(problems, fmt.Sprintf("publicKeyECDSA has no key length test for algorithm %d", alg))
+		} else if len(accepted) != 1 || accepted[0] != 2*cw {
+			problems = append(problems, fmt.Sprintf("publicKeyECDSA expects %v octets for algorithm %d, RFC 6605 needs %d", accepted, alg, 2*cw))
+		}
+	}
+	if undecided {
+		r.undecided(rule, "ECDSA coordinate widths", "", "the selection of the width by the algorithm number could not be followed")
+		return
+	}
+	sort.Strings(problems)
+	r.check(len(problems) == 0, rule, "ECDSA coordinate widths", "", "13:32/64, 14:48/96", "%s", strings.Join(uniqStrings(problems), "; "))
+}
+
+// escapeSkipExec: one turn of escapedNameLen's loop, walked for the three kinds of position (no backslash, backslash
+// before three digits, backslash before anything else): the index moves on by 1, 4 and 2, and the length drops by 0, 3
+// and 1. The variables are recognised by what they are (the index starts at 0, the length at len(s)).
+func escapeSkipExec(c *Ctx, r *Report, rule string) {
+	fn := c.ssaFunc("escapedNameLen")
+	if fn == nil {
+		r.cerr(rule, "escapedNameLen", "function not found")
+		return
+	}
+	r.fn("escapedNameLen")
+	var idx, length *ssa.Phi
+	var head *ssa.BasicBlock
+	for _, b := range fn.Blocks {
+		if !backTarget(fn, b) {
+			continue
+		}
+		for _, in := range b.Instrs {
+			phi, ok := in.(*ssa.Phi)
+			if !ok {
+				break
+			}
+			for i, e := range phi.Edges {
+				if b.Dominates(b.Preds[i]) {
+					continue // a back edge
+				}
+				if k, isK := constIntOf(e); isK && k == 0 {
+					idx, head = phi, b
+				}
+				if call, isCall := e.(*ssa.Call); isCall && calleeNameSSA(&call.Call) == "builtin.len" {
+					length = phi
+				}
+			}
+		}
+	}
+	if idx == nil || length == nil || idx.Block() != length.Block() {
+		r.undecided(rule, "escapedNameLen", c.pos(fn.Pos()), "the loop with an index starting at 0 and a length starting at len(s) was not found")
+		return
+	}
+	var slashTests, dddCalls, lens []ssa.Value
+	allInstrs(fn, func(in ssa.Instruction) {
+		switch t := in.(type) {
+		case *ssa.BinOp:
+			if t.Op == token.EQL || t.Op == token.NEQ {
+				if k, isK := constIntOf(t.Y); isK && k == '\\' {
+					slashTests = append(slashTests, t)
+				}
+			}
+		case *ssa.Call:
+			switch calleeNameSSA(&t.Call) {
+			case "isDDD":
+				dddCalls = append(dddCalls, t)
+			case "builtin.len":
+				lens = append(lens, t)
+			}
+		}
+	})
+	if len(slashTests) == 0 || len(dddCalls) == 0 {
+		r.undecided(rule, "escapedNameLen", c.pos(fn.Pos()), "no test for a backslash / no isDDD call found")
+		return
+	}
+	var problems []string
+	for _, cs := range []struct {
+		slash, ddd bool
+		di, dl     int64
+		what       string
+	}{{false, false, 1, 0, "an ordinary octet"}, {true, true, 4, -3, "a \\DDD escape"}, {true, false, 2, -1, "a \\c escape"}} {
+		env := map[ssa.Value]int64{idx: 10, length: 100}
+		for _, lc := range lens {
+			env[lc] = 1000
+		}
+		for _, st := range slashTests {
+			bin := st.(*ssa.BinOp)
+			if (bin.Op == token.EQL) == cs.slash {
+				env[st] = 1
+			} else {
+				env[st] = 0
+			}
+		}
+		for _, dc := range dddCalls {
+			if cs.ddd {
+				env[dc] = 1
+			} else {
+				env[dc] = 0
+			}
+		}
+		x := &scalarExec{pkg: fn.Pkg}
+		res := x.run(fn, head, 0, env, 0)
+		if !res.Looped {
+			r.undecided(rule, "escapedNameLen", c.pos(fn.Pos()), "one turn of the loop could not be followed for %s", cs.what)
+			return
+		}
+		ni, ok1 := res.PhiIn[idx]
+		nl, ok2 := res.PhiIn[length]
+		if !ok1 || !ok2 {
+			r.undecided(rule, "escapedNameLen", c.pos(fn.Pos()), "the index / length after one turn are not decided for %s", cs.what)
+			return
+		}
+		if ni-10 != cs.di || nl-100 != cs.dl {
+			problems = append(problems, fmt.Sprintf("for %s the index moves on by %d and the length changes by %d (want %d and %d): the octets skipped and the octets subtracted do not agree with the escape form", cs.what, ni-10, nl-100, cs.di, cs.dl))
+		}
+	}
+	r.check(len(problems) == 0, rule, "escapedNameLen", c.pos(fn.Pos()), "(1,0) (4,-3) (2,-1)", "%s", strings.Join(problems, "; "))
 }
